@@ -286,7 +286,7 @@ def nontrivial(op, payload, impl_out):
     return bool(re.search(r"[1-9]", impl_out))
 
 def gs_reference_levels(n, rows, fwd):
-    """the level loop as it was BEFORE the fix /repo f214b60 (own already-swept neighbours only); only used to
+    """the level loop as it was BEFORE the fix /repo dff00c6 (own already-swept neighbours only); only used to
     classify a failure as the historical finding C09-gs-antidep (now status fixed: nothing is suppressed)"""
     level = [0] * n
     order = range(n) if fwd else range(n - 1, -1, -1)
